@@ -835,6 +835,10 @@ from ..selftest import Seed, unparse_seed  # noqa: E402
 _T = "src/odfdo/table.py"
 _R = "src/odfdo/row.py"
 SEEDS = [
+    Seed("Cell.value forgets the currency type", "fault", "src/odfdo/cell.py",
+         "        if value_type in {\"float\", \"percentage\", \"currency\"}:", "        if value_type in {\"float\", \"percentage\"}:", "R17n"),
+    Seed("Cell.value names its numeric types in a tuple", "neutral", "src/odfdo/cell.py",
+         "        if value_type in {\"float\", \"percentage\", \"currency\"}:", "        if value_type in (\"currency\", \"float\", \"percentage\"):"),
     Seed("Row.is_empty asks its cells the default question", "fault", _R,
          "        return all(cell.is_empty(aggressive=aggressive) for cell in self._get_cells())", "        return all(cell.is_empty() for cell in self._get_cells())", "R17m"),
     Seed("the CSV importer tries numbers only on plain decimal text", "fault", _T,
